@@ -136,6 +136,14 @@ func parkNilChan(ready chan<- int) {
 	<-c
 }
 
+type pairArg struct{ a, b int }
+
+// parkGeneric is printed as parkGeneric[...] for every instantiation: goroutines parked at the
+// same line show argument lists of different shapes.
+//
+//go:noinline
+func parkGeneric[T any](v T, ch chan int, ready chan<- int) { ready <- goid(); <-ch; _ = v }
+
 // spawnStable starts one registered goroutine; it is the "created by" function of all of them.
 //
 //go:noinline
@@ -185,6 +193,14 @@ func (w *workload) spawnStable(kind string) *stableG {
 		s.fn, s.states, s.elided = "parkDeep", []string{"chan receive"}, true
 		go parkDeep(120, ch, ready)
 		s.release = func() { close(ch) }
+	case "generic1":
+		s.fn, s.states = "parkGeneric[...]", []string{"chan receive"}
+		go parkGeneric(pairArg{1, 2}, ch, ready)
+		s.release = func() { close(ch) }
+	case "generic2":
+		s.fn, s.states = "parkGeneric[...]", []string{"chan receive"}
+		go parkGeneric(7, ch, ready)
+		s.release = func() { close(ch) }
 	case "nilchan":
 		s.fn, s.states = "parkNilChan", []string{"chan receive (nil chan)"}
 		go parkNilChan(ready)
@@ -194,7 +210,7 @@ func (w *workload) spawnStable(kind string) *stableG {
 	return s
 }
 
-var stableKinds = []string{"recv", "send", "select", "sleep", "mutex", "cond", "accept", "locked", "deep", "nilchan"}
+var stableKinds = []string{"recv", "send", "select", "sleep", "mutex", "cond", "accept", "locked", "deep", "nilchan", "generic1", "generic2"}
 
 func newWorkload(perKind int) *workload {
 	w := &workload{stop: make(chan struct{})}
